@@ -44,10 +44,11 @@ class ScalingModel(darsia.Model):
         self,
         parameters: np.ndarray,
         dofs: Optional[Union[list[Literal["scaling"]], Literal["all"]]] = None,
-    ) -> None:
+    ) -> int:
         """
         Short cut to update scaling and offset parameters using a
-        general function signature.
+        general function signature. Returns the number of leading entries
+        of parameters that have been used.
 
         The main use is the model calibration. Do not update the offset.
 
@@ -57,6 +58,7 @@ class ScalingModel(darsia.Model):
         """
         if dofs is None or dofs == "all" or set(dofs) == set(["scaling"]):
             self.update(scaling=parameters[0])
+            return 1
         else:
             raise ValueError(f"Unknown dof {dofs}.")
 
@@ -117,10 +119,11 @@ class LinearModel(darsia.Model):
         dofs: Optional[
             Union[list[Literal["scaling", "offset"]], Literal["all"]]
         ] = None,
-    ) -> None:
+    ) -> int:
         """
         Short cut to update scaling and offset parameters using a
-        general function signature.
+        general function signature. Returns the number of leading entries
+        of parameters that have been used.
 
         The main use is the model calibration. Do not update the offset.
 
@@ -130,10 +133,13 @@ class LinearModel(darsia.Model):
         """
         if dofs is None or dofs == "all" or set(dofs) == set(["scaling", "offset"]):
             self.update(scaling=parameters[0], offset=parameters[1])
+            return 2
         elif set(dofs) == set(["scaling"]):
             self.update(scaling=parameters[0])
+            return 1
         elif set(dofs) == set(["offset"]):
             self.update(offset=parameters[0])
+            return 1
         else:
             raise ValueError(f"Unknown dof {dofs}.")
 
@@ -234,10 +240,11 @@ class HeterogeneousLinearModel(darsia.Model):
         dofs: Optional[
             Union[list[Literal["scaling", "offset"]], Literal["all"]]
         ] = None,
-    ) -> None:
+    ) -> int:
         """
         Short cut to update scaling and offset parameters using a
-        general function signature.
+        general function signature. Returns the number of leading entries
+        of parameters that have been used.
 
         Args:
             parameters (np.ndarray): 2-array containing scaling and offset values.
@@ -248,10 +255,14 @@ class HeterogeneousLinearModel(darsia.Model):
                 scaling=parameters[: self.num_labels],
                 offset=parameters[self.num_labels : 2 * self.num_labels],
             )
+            return 2 * self.num_labels
         elif set(dofs) == set(["scaling"]):
             self.update(scaling=parameters[: self.num_labels])
+            return self.num_labels
         elif set(dofs) == set(["offset"]):
             self.update(offset=parameters[: self.num_labels])
+            return self.num_labels
+        return 0
 
     def __call__(self, img: np.ndarray) -> np.ndarray:
         """
